@@ -120,6 +120,43 @@ func c18Ints(r *mon.Run) {
 			r.Violation("C18/integer-cbor-roundtrip", fmt.Sprintf("CBOR round trip changes value (err=%v)", err), rep)
 		}
 	}
+	// the same codecs decoding into a destination that already holds another value (a struct variable decoded into twice:
+	// encoding/json and encoding/xml re-use non-nil pointer fields): the second value must replace the first completely
+	prev := []*big.Int{bi(45), sub(pow2(300), bigOne), bi(0)}
+	sel := []*big.Int{bi(0), bi(1), bi(255), bi(256)}
+	for i, v := range vals {
+		if v.Sign() >= 0 && (i < 200 || i%9 == 0) {
+			sel = append(sel, v)
+		}
+	}
+	for _, v := range sel {
+		for _, pv := range prev {
+			rep := map[string]any{"value": dumpInt(v), "destination_held": dumpInt(pv)}
+			r.Eval("int-reused-destination", "accept")
+			if b, err := json.Marshal(box{v}); err == nil {
+				g := box{cp(pv)}
+				if err := json.Unmarshal(b, &g); err != nil || g.V == nil || g.V.Cmp(v) != 0 {
+					r.Violation("C18/integer-json-roundtrip/reused-destination", fmt.Sprintf("JSON decoding of a %d-bit value into a destination that held another value gives %s (err=%v)", v.BitLen(), dumpInt(g.V), err), rep)
+				}
+				g2 := box{cp(pv)}
+				if err := json.Unmarshal([]byte(`{"v":`+v.String()+`}`), &g2); err != nil || g2.V == nil || g2.V.Cmp(v) != 0 {
+					r.Violation("C18/integer-json-decimal/reused-destination", fmt.Sprintf("bare decimal JSON decoded into a destination that held another value gives %s (err=%v)", dumpInt(g2.V), err), rep)
+				}
+			}
+			if xb, err := xml.Marshal(xmlBox{v}); err == nil {
+				g := xmlBox{cp(pv)}
+				if err := xml.Unmarshal(xb, &g); err != nil || g.V == nil || g.V.Cmp(v) != 0 {
+					r.Violation("C18/integer-xml-roundtrip/reused-destination", fmt.Sprintf("XML decoding into a destination that held another value gives %s (err=%v)", dumpInt(g.V), err), rep)
+				}
+			}
+			if cb, err := cbor.Marshal(box{v}, cbor.EncOptions{}); err == nil {
+				g := box{cp(pv)}
+				if err := cbor.Unmarshal(cb, &g); err != nil || g.V == nil || g.V.Cmp(v) != 0 {
+					r.Violation("C18/integer-cbor-roundtrip/reused-destination", fmt.Sprintf("CBOR decoding into a destination that held another value gives %s (err=%v)", dumpInt(g.V), err), rep)
+				}
+			}
+		}
+	}
 	// negatives
 	for i := 0; i < 60; i++ {
 		v := new(big.Int).Neg(add(randBig(rng, 1+rng.IntN(600)), bigOne))
